@@ -19,7 +19,7 @@ ASSUMPTIONS = [
 
 
 def _L(ctx):
-    return 5 if ctx.thorough else 4
+    return 6 if ctx.thorough else 4
 
 
 def correspondence(ctx):
@@ -84,7 +84,7 @@ def _oneliner(name, d):
 
 def _range_stream(ctx):
     """random lists through VersionRange (constructor sorts), with stars, duplicates, any order"""
-    N = 4000 if ctx.thorough else 600
+    N = 20000 if ctx.thorough else 600
     for name in S.ALL:
         rng = ctx.rng("c04-range", name)
         bench = B.Bench(name, rng, size=14)
